@@ -129,15 +129,30 @@ HELPER_R = ("def", "r", [("n", "int")], "int", [
     ("return", B("+", V("n"), ("selfcall", [B("-", V("n"), I(1))])))])
 
 
-def program(spine, leaf, variant=0):
-    body = [("assign", "acc", I(0)), ("assign", "k", I(5))] + build(spine, leaf, variant) + [("print", V("acc")), ("return", V("acc"))]
+def rename(node, m):
+    if isinstance(node, tuple):
+        if len(node) == 2 and node[0] == "var" and node[1] in m:
+            return ("var", m[node[1]])
+        return tuple(rename(x, m) for x in node)
+    if isinstance(node, list):
+        return [rename(x, m) for x in node]
+    return node
+
+
+def program(spine, leaf, variant=0, where="fn"):
     prog = [("assign", "in0", ("in", 0)), ("assign", "in1", ("in", 1)), ("assign", "in2", ("in", 2))]
     if leaf in ("call", "nested_fn_loop"):
         prog.append(HELPER_H)
     if leaf == "rec":
         prog.append(HELPER_R)
-    prog.append(("def", "t", [("p0", "int"), ("p1", "int"), ("p2", "int")], "int", body))
-    prog.append(("print", ("call", "t", [V("in0"), V("in1"), V("in2")])))
+    if where == "module":
+        # the same statements as module-level code (module frame instead of a function frame, no `return`)
+        body = [("assign", "acc", I(0)), ("assign", "k", I(5))] + build(spine, leaf, variant) + [("print", V("acc"))]
+        prog += rename(body, {"p0": "in0", "p1": "in1", "p2": "in2"})
+    else:
+        body = [("assign", "acc", I(0)), ("assign", "k", I(5))] + build(spine, leaf, variant) + [("print", V("acc")), ("return", V("acc"))]
+        prog.append(("def", "t", [("p0", "int"), ("p1", "int"), ("p2", "int")], "int", body))
+        prog.append(("print", ("call", "t", [V("in0"), V("in1"), V("in2")])))
     prog.append(("print", ("str", "end")))
     return prog
 
@@ -153,7 +168,9 @@ def enumerate_all(depth):
                     continue
                 nvar = 3 if any(f in LOOPS for f in spine) and any(f.startswith(("ifelse", "elif")) for f in spine) else 1
                 for v in range(nvar):
-                    yield spine, leaf, v
+                    yield spine, leaf, v, "fn"
+                if leaf != "return":
+                    yield spine, leaf, 0, "module"
 
 
 def select(plan, seed):
@@ -174,5 +191,5 @@ def select(plan, seed):
 
 
 def describe(item):
-    spine, leaf, v = item
-    return "%s > %s (variant %d)" % (" > ".join(spine), leaf, v)
+    spine, leaf, v, where = item
+    return "%s > %s (variant %d, %s level)" % (" > ".join(spine), leaf, v, "module" if where == "module" else "function")
